@@ -22,7 +22,7 @@ import common
 import c01_gen as G
 import c01_decks as D
 
-THEOREMS = []
+THEOREMS = ['C01_flag_den', 'C01_expand_surfs_den', 'C01_optimise_den']
 TRUSTED = [
     'hand-written model coq/C01/Model.v (modelled, tied by execution only)',
     'surfaces are abstract ids: what a T4 surface id means geometrically, and '
